@@ -105,7 +105,9 @@ theorem close_needs_encrypted_session {env : CryptoEnv} {bodyOf : Init.BodyOf} {
         intro hb; apply hpl; rw [hb]; rfl
       simp only [hb, if_false, hu, if_true] at hm
       split at hm
-      · split at hm <;> cases hm
+      · split at hm
+        · cases hm
+        · split at hm <;> cases hm
       · cases hm
         exact hb rfl
 
